@@ -7,7 +7,7 @@ VARIABLE x
 Init == \/ x \in [kind : {"codon"}, c : Codons3375]
         \/ x \in [kind : {"pair"}, a : Sym, b : Sym, hard : BOOLEAN]
         \/ x \in [kind : {"char"}, c : Chars]
-        \/ x \in [kind : {"thm"}, n : 1..8]
+        \/ x \in [kind : {"thm"}, n : 1..10]
         \/ x \in {[kind |-> "dec", n |-> n, d |-> d] : n \in 0..2, d \in 1..40} /\ x.n <= x.d
 Next == UNCHANGED x
 
@@ -51,4 +51,6 @@ ThmInv == x.kind = "thm" =>
      [] x.n = 6 -> Cardinality(Chars) = 32 /\ Cardinality(Sym) = 17
      [] x.n = 7 -> ThmCompSets
      [] x.n = 8 -> ThmKnownBit
+     [] x.n = 9 -> ThmRepeat
+     [] x.n = 10 -> ThmPad
 =============================================================================
